@@ -370,6 +370,12 @@ def cases(ctx):
         origin = None if rng.random() < 0.8 else [b"o", b"example", b""]
         mid, flags, ms, ops = g.gen_rseq(rng, origin)
         yield "rseq", [7, origin, mid, flags, ms, ops]
+    # the Renderer API used directly, through the model as well: reserve / release_reserved / add_opt (with
+    # padding arguments) / write_header / _write_tsig next to add_question / add_rrset
+    for i in range(ctx.n(120, 500)):
+        origin = None if rng.random() < 0.8 else [b"o", b"example", b""]
+        mid, flags, ms, ops = g.gen_rapi(rng, origin)
+        yield "rapi-model", [7, origin, mid, flags, ms, ops]
     # the Renderer API used directly, with reserve/release, add_edns and add_tsig (oracle only)
     for i in range(ctx.n(120, 800)):
         origin = None if rng.random() < 0.8 else [b"o", b"example", b""]
